@@ -49,6 +49,12 @@ CHECKS = {
  'C17': ('token-level mutation of valid programs with the shipped grammar (counting error listener) as oracle',
          'No malformed text accepted among N mutants that the grammar classifies as erroneous.',
          'The generated lexer/parser shipped in the repository define the grammar; unanchored trailing text is out of scope.', '5/C17'),
+ 'C18': ('differential testing: harness-side inverse translators emit 0.0.39 JSON/YAML and securiCAD archives from generated native models; legacy loader vs native loader',
+         'No divergence in N random models x 3 encodings.',
+         'Trusts the emitters in mtv/props/c18.py (written after the repository fixture pair) and the native loader as reference.', '5/C18'),
+ 'C19': ('recording stand-in for the database driver; export compared with the expected node / relationship sets computed from the case description; import round trip',
+         'No counter-example in N random models / attack graphs.',
+         'The stand-in answers the two fixed queries of get_model by pattern matching over the recorded py2neo subgraph; no real database.', '5/C19'),
 }
 NOT_APPLICABLE = {}
 
